@@ -21,14 +21,26 @@ extern "C" void simh_px_lock(void *px);
 extern "C" void simh_px_unlock(void *px);
 extern "C" void simh_px_lock_shared(void *px);
 extern "C" void simh_px_unlock_shared(void *px);
-struct ProxyMutex {
+// (declared inside namespace frg only so that argument-dependent lookup on a pointer to it finds frg's free helper functions)
+namespace frg { struct SimProxyMutex {
 	unsigned char unused;
 	void lock() { if (simh_lock_should_throw()) throw 1; simh_px_lock(this); }
 	void unlock() { simh_px_unlock(this); }
 	void lock_shared() { if (simh_lock_should_throw()) throw 1; simh_px_lock_shared(this); }
 	void unlock_shared() { simh_px_unlock_shared(this); }
-};
+}; }
+using ProxyMutex = frg::SimProxyMutex;
 static_assert(sizeof(ProxyMutex) == 1 && alignof(ProxyMutex) == 1);
+// the free factory helpers next to frg::guard(m) / guard(dont_lock, m): probed by unqualified (dependent) calls, so that a
+// tree that completes the family — guard(adopt_lock, m), shared_guard(...) — gets the new members exercised as well
+template <class MM> constexpr bool has_guard_adopt_v = requires(MM *x) { guard(frg::adopt_lock, x); };
+template <class MM> constexpr bool has_sguard_v = requires(MM *x) { shared_guard(x); };
+template <class MM> constexpr bool has_sguard_defer_v = requires(MM *x) { shared_guard(frg::dont_lock, x); };
+template <class MM> constexpr bool has_sguard_adopt_v = requires(MM *x) { shared_guard(frg::adopt_lock, x); };
+template <class Dep, class MM> auto call_guard_adopt(MM *x) { return guard(frg::adopt_lock, x); }
+template <class Dep, class MM> auto call_sguard(MM *x) { return shared_guard(x); }
+template <class Dep, class MM> auto call_sguard_defer(MM *x) { return shared_guard(frg::dont_lock, x); }
+template <class Dep, class MM> auto call_sguard_adopt(MM *x) { return shared_guard(frg::adopt_lock, x); }
 
 // Every operation is offered to every guard type and compiled only if the guard type of the tree under test has it
 // (Query: report availability without executing). So a guard that gains an operation — e.g. an implicit copy constructor,
@@ -57,6 +69,10 @@ static int guard_op(int op, void *a, void *b, ProxyMutex *m) {
 		AVAIL((std::is_same_v<G, frg::unique_lock<M>>), new (a) G(frg::guard(m)));
 	case GO_GUARD_DEFER:
 		AVAIL((std::is_same_v<G, frg::unique_lock<M>>), new (a) G(frg::guard(frg::dont_lock, m)));
+	case GO_GUARD_ADOPT: AVAIL((std::is_same_v<G, frg::unique_lock<M>> && has_guard_adopt_v<M>), new (a) G(call_guard_adopt<G>(m)));
+	case GO_SGUARD_LOCK: AVAIL((std::is_same_v<G, frg::shared_lock<M>> && has_sguard_v<M>), new (a) G(call_sguard<G>(m)));
+	case GO_SGUARD_DEFER: AVAIL((std::is_same_v<G, frg::shared_lock<M>> && has_sguard_defer_v<M>), new (a) G(call_sguard_defer<G>(m)));
+	case GO_SGUARD_ADOPT: AVAIL((std::is_same_v<G, frg::shared_lock<M>> && has_sguard_adopt_v<M>), new (a) G(call_sguard_adopt<G>(m)));
 	}
 #undef AVAIL
 	return -1;
